@@ -130,6 +130,11 @@ func GetExtendedSpatialIdsWithinRadiusOfLine(startPoint *object.Point, endPoint 
 			// Put idConvex into measure's ConvexHulls[1]
 			measure1.ConvexHulls[1] = idConvex
 
+			// Measure keeps the direction found for the previous ID as the starting direction of the next search.
+			// idsAroundLine has no fixed order, so start every measurement from the same (zero) direction:
+			// otherwise the distance of an ID, and with it the result, depends on which ID was measured before it.
+			measure1.Direction = mgl64.Vec3{}
+
 			// Measure the distance between the line (ConvexHull[0]) and the
 			// SpatialIDs vertex vectors (ConvexHull[1])
 			measure1.MeasureNonnegativeDistance()
